@@ -103,7 +103,7 @@ Proof.
   destruct (f l); simpl; rewrite IH; reflexivity.
 Qed.
 
-Lemma In_combine_same_length {A} ls (vs : list A) l :
+Lemma In_combine_same_length {A} (ls : list Z) (vs : list A) (l : Z) :
   length ls = length vs -> ((exists v, In (l, v) (combine ls vs)) <-> In l ls).
 Proof.
   revert vs. induction ls as [|x ls IH]; intros [|v vs] H; simpl in *; try discriminate.
@@ -127,12 +127,12 @@ Proof.
   cbv zeta in *. set (g := fold_left (group_step ign) (combine labels vs) []) in *.
   assert (D' : forall l, In l (gkeys g) <-> In l labels /\ kept ign l = true).
   { intros l. rewrite D. rewrite In_combine_same_length by exact Hl. simpl. tauto. }
-  repeat split; try assumption; try (apply D'; assumption).
-  - apply D'. assumption.
+  split; [exact A|]. split; [exact D'|].
+  intros l b H.
+  assert (Hk : kept ign l = true) by (apply D'; apply in_map_iff; exists (l, b); split; [reflexivity|exact H]).
+  split; [|split; [|exact Hk]].
   - rewrite <- (bucket_In g l b A H). rewrite C. simpl.
-    assert (Hk : kept ign l = true) by (apply D'; apply in_map_iff; exists (l, b); split; [reflexivity|exact H]).
     rewrite <- filter_combine_select. f_equal. apply filter_ext. intros [l' v]. simpl.
     destruct (Z.eqb l l') eqn:E; [|reflexivity]. apply Z.eqb_eq in E. subst. rewrite Hk. reflexivity.
   - unfold nonempty_buckets in B. rewrite Forall_forall in B. apply (B (l, b) H).
-  - apply D'. apply in_map_iff. exists (l, b). split; [reflexivity|exact H].
 Qed.
